@@ -414,16 +414,43 @@ fn exec_op(cx: &mut Ctx, t: &[&str]) -> String {
     }
 }
 
+/// hash of the complete raw root storage in key order (implementation-only observation, `!h=…`)
+fn rawhash(cx: &Ctx) -> String {
+    use sha2::{Digest, Sha256};
+    let mut h = Sha256::new();
+    for (k, v) in cx.app.storage().range(None, None, Order::Ascending) {
+        h.update((k.len() as u64).to_be_bytes());
+        h.update(&k);
+        h.update((v.len() as u64).to_be_bytes());
+        h.update(&v);
+    }
+    let d = h.finalize();
+    format!("!h={}", hex(&d[..12]))
+}
+
+/// Slices `staking` and `staking-det`. `app <n>` switches the current `App` instance (a fresh one the first time `n`
+/// is named; ops before any `app` line go to instance 1); every instance has its own clock and its own "dead" flag.
 pub fn exec_staking(lines: &[String]) -> Vec<String> {
-    let mut cx = Ctx::new();
+    let mut apps: BTreeMap<String, Ctx> = BTreeMap::new();
+    let mut cur = "1".to_string();
     let mut out = Vec::with_capacity(lines.len());
     for line in lines {
+        let t: Vec<&str> = line.split_whitespace().collect();
+        if let ["app", n] = t.as_slice() {
+            cur = n.to_string();
+            out.push("ok".to_string());
+            continue;
+        }
+        let cx = apps.entry(cur.clone()).or_insert_with(Ctx::new);
         if cx.dead {
             out.push("dead".to_string());
             continue;
         }
-        let t: Vec<&str> = line.split_whitespace().collect();
-        match guarded(|| exec_op(&mut cx, &t)) {
+        if let ["rawhash"] = t.as_slice() {
+            out.push(rawhash(cx));
+            continue;
+        }
+        match guarded(|| exec_op(cx, &t)) {
             Some(o) => out.push(o),
             None => {
                 cx.dead = true;
@@ -674,4 +701,85 @@ pub fn gen_staking(rng: &mut Rng, thorough: bool) -> Vec<String> {
         g.out.push(format!("dec {} {} {}", f, a, b));
     }
     g.out
+}
+
+/// Slice `staking-det` (C19): a history H on App 1, then the same H on a fresh App 2 — in half of the cases interleaved
+/// at random points with a different history on App 3. After every op the public observations (`obs`) and the hash of
+/// the complete raw storage (`rawhash`, implementation-only). Most histories start with all three delegators staking
+/// with one validator, so that the serialised staker set has several members.
+pub fn gen_staking_det(rng: &mut Rng, thorough: bool) -> Vec<String> {
+    fn history(rng: &mut Rng, thorough: bool, crowd: bool) -> Vec<String> {
+        let base = gen_staking(rng, thorough);
+        let mut h = vec![];
+        let mut crowded = !crowd;
+        for l in base {
+            if l == "sdump" || l.starts_with("dec ") {
+                continue;
+            }
+            let is_obs = l.starts_with("obs ");
+            h.push(l);
+            if is_obs {
+                h.push("rawhash".to_string());
+                if !crowded {
+                    // right after the set-up observations: everybody stakes with the same validator(s)
+                    crowded = true;
+                    let v = rng.range(1, 2);
+                    let mut ds = vec!["d1", "d2", "d3"];
+                    if rng.chance(1, 2) {
+                        ds.swap(0, 2);
+                    }
+                    if rng.chance(1, 2) {
+                        ds.swap(0, 1);
+                    }
+                    for d in ds {
+                        h.push(format!("deleg {} v{} {}", d, v, rng.range(1, 9)));
+                        h.push(format!("obs {} {}", OBS_D, OBS_V));
+                        h.push("rawhash".to_string());
+                    }
+                }
+            }
+        }
+        h
+    }
+    let crowd = rng.chance(9, 10);
+    let h1 = history(rng, thorough, crowd);
+    let mut out = vec!["app 1".to_string()];
+    out.extend(h1.iter().cloned());
+    if rng.chance(1, 2) {
+        out.push("app 2".to_string());
+        out.extend(h1.iter().cloned());
+    } else {
+        let h2 = history(rng, false, true);
+        let (mut i, mut j) = (0, 0);
+        let mut cur = 0;
+        while i < h1.len() || j < h2.len() {
+            let take2 = i < h1.len() && (j >= h2.len() || rng.chance(2, 3));
+            if take2 {
+                if cur != 2 {
+                    out.push("app 2".to_string());
+                    cur = 2;
+                }
+                let n = rng.range(1, 6) as usize;
+                for _ in 0..n {
+                    if i < h1.len() {
+                        out.push(h1[i].clone());
+                        i += 1;
+                    }
+                }
+            } else {
+                if cur != 3 {
+                    out.push("app 3".to_string());
+                    cur = 3;
+                }
+                let n = rng.range(1, 6) as usize;
+                for _ in 0..n {
+                    if j < h2.len() {
+                        out.push(h2[j].clone());
+                        j += 1;
+                    }
+                }
+            }
+        }
+    }
+    out
 }
